@@ -8,6 +8,7 @@ import itertools
 import math
 
 import numpy as np
+import pandas as pd
 from hypothesis import strategies as st
 from hypothesis.extra import numpy as hnp
 
@@ -15,7 +16,7 @@ from .. import gen
 from ..gen import cell_st, fl, nice_float, ppp_st, types_st
 from ..harness import Violation
 from ..ref import geom
-from ..util import arr
+from ..util import arr, require
 
 EPS = 1e-9  # relative width of a decision boundary (DESIGN 1.4)
 
@@ -29,11 +30,22 @@ def dense(shape, elements, dtype=np.float64):
     return hnp.arrays(dtype, shape, elements=elements, fill=st.nothing())
 
 
+def _scramble(k):
+    """Hypothesis prefers small and 'round' integers; a multiplicative hash spreads them evenly (0 stays 0, so the
+    shrunk example still takes the first / the cheap option)."""
+    return ((int(k) * 2654435761) & 0xFFFFFFFF) >> 7
+
+
+def chance(draw, n):
+    """True in about one case of n"""
+    return _scramble(draw(st.integers(0, 2 ** 32 - 1))) % n == n - 1
+
+
 def pick(options):
     """Choice among a few options through a large integer range: Hypothesis' sampled_from clumps on one option within
-    a run of a few hundred cases, k mod n does not."""
+    a run of a few hundred cases, a scrambled k mod n does not."""
     opts = list(options)
-    return st.integers(0, 10 ** 6).map(lambda k: opts[k % len(opts)])
+    return st.integers(0, 2 ** 32 - 1).map(lambda k: opts[_scramble(k) % len(opts)])
 
 
 _IRR = np.array([math.sqrt(2.0), math.sqrt(3.0), math.sqrt(5.0)]) - 1.0
@@ -93,10 +105,55 @@ def fracs_st(draw, d, N, exact_ok=True, kinds=("gas", "gas", "cluster", "lattice
 
 
 @st.composite
+def unwrap_st(draw, N, d, ppp, rng=None):
+    """Whole-cell offsets of the INPUT configuration (periodic axes only): the same periodic system given wrapped,
+    with some particles in a neighbouring image, or unwrapped over several cells (xu-style coordinates).
+    Returns (offsets N x d, class name)."""
+    ppp = np.asarray(ppp, dtype=int)
+    mode = draw(pick(["wrapped", "wrapped", "wrapped", "image1", "image1", "several", "several", "drift"]))
+    if not ppp.any() or mode == "wrapped":
+        return np.zeros((N, d)), "wrapped"
+    amp = {"image1": 1, "several": 4, "drift": 1}[mode]
+    if rng is None:
+        offs = draw(hnp.arrays(np.int64, (N, d), elements=st.integers(-amp, amp))).astype(float)
+    else:
+        offs = rng.integers(-amp, amp + 1, size=(N, d)).astype(float)
+    if mode == "drift":          # the whole configuration sits several cells away from the box
+        offs = offs + np.array([draw(st.integers(-6, 6)) for _ in range(d)], dtype=float)
+    offs = offs * ppp
+    if mode == "several" and np.abs(offs).max() < 2:
+        offs[draw(st.integers(0, N - 1)), int(np.argmax(ppp))] = draw(st.sampled_from([-4.0, -3.0, 2.0, 3.0]))
+    return offs, (mode if offs.any() else "wrapped")
+
+
+@st.composite
 def config_st(draw, d, N, cell, K=1, frames=(1, 1), ppp=None, allow_open=True, same_kind=False, **kw):
     """A configuration case in the layout of gen.config_st (usable with gen.snapshots_from)."""
     F = draw(st.integers(*frames))
     fr, kinds = [], []
+    pmask = np.ones(d, dtype=int) if ppp is None else np.asarray(ppp, dtype=int)
+    critical = cell["kind"] == "tri" and bool(pmask[:2].all()) and chance(draw, 6)
+    if critical:
+        # EXTENSION_3 class 4: every pair vector of the frame is short in every Cartesian component, some lie beyond
+        # the half cell along the first vector of a strongly tilted cell: particles on a line segment along the
+        # fractional direction (0.62, -+0.4, 0), all inside the box, nothing unwrapped
+        sgn = draw(st.sampled_from([-1.0, 1.0]))
+        cell["H"][1, 0] = sgn * 0.45 * cell["H"][0, 0]
+        step = np.zeros(d)
+        step[0], step[1] = 0.62, -0.4 * sgn
+        for _ in range(F):
+            t = np.array([0.0, 1.0] + [draw(fl(0.0, 1.0)) for _ in range(N - 2)])[:N]
+            f0 = np.array([draw(fl(0.05, 0.3)), draw(fl(0.5, 0.9)) if sgn > 0 else draw(fl(0.1, 0.5))]
+                          + [draw(fl(0.1, 0.9))] * (d - 2))
+            f = f0[None, :] + t[:, None] * step[None, :] + 2e-3 * draw(dense((N, d), fl(-1.0, 1.0)))
+            fr.append(separate(f % 1.0, tol=1e-5))
+            kinds.append("critical-line")
+        ppp = pmask
+        t0 = draw(st.integers(0, 10 ** 6))
+        dt = draw(st.integers(1, 5000))
+        return {"d": d, "cell": cell, "pos": [cell["lo"] + f @ cell["H"] for f in fr], "types": draw(types_st(N, K)),
+                "ppp": ppp, "K": K, "kind": "+".join(kinds), "timesteps": [t0 + k * dt for k in range(F)],
+                "outside": False, "unwrapped": "wrapped"}
     for _ in range(F):
         f, kind = draw(fracs_st(d, N, exact_ok=cell["kind"] == "ortho", **kw))
         if cell["kind"] != "ortho":
@@ -107,14 +164,170 @@ def config_st(draw, d, N, cell, K=1, frames=(1, 1), ppp=None, allow_open=True, s
     if ppp is None:
         ppp = draw(ppp_st(d, allow_open))
     ppp = np.asarray(ppp, dtype=int)
-    offs = np.zeros((N, d))
-    if draw(st.booleans()):
-        offs = draw(hnp.arrays(np.int64, (N, d), elements=st.integers(-1, 1))).astype(float) * ppp
+    offs, unwrapped = draw(unwrap_st(N, d, ppp))
     t0 = draw(st.integers(0, 10 ** 6))
     dt = draw(st.integers(1, 5000))
     return {"d": d, "cell": cell, "pos": [cell["lo"] + (f + offs) @ cell["H"] for f in fr],
             "types": draw(types_st(N, K)), "ppp": ppp, "K": K, "kind": "+".join(kinds),
-            "timesteps": [t0 + k * dt for k in range(F)], "outside": bool(np.any(offs))}
+            "timesteps": [t0 + k * dt for k in range(F)], "outside": bool(np.any(offs)), "unwrapped": unwrapped}
+
+
+# ----------------------------------------------------------------------------- size-boundary classes (EXTENSION_3 class 1)
+
+BLOCKS = (32, 50, 64, 100, 128, 200, 256, 500, 512, 1000, 1024)
+
+
+def boundary_sizes(lo, hi):
+    """Sizes around typical block / tile sizes B: B-1, B, B+1, 2B-1, 2B+1, B + B//3 within [lo, hi]."""
+    out = set()
+    for B in BLOCKS:
+        out.update((B - 1, B, B + 1, 2 * B - 1, 2 * B + 1, B + B // 3))
+    return sorted(n for n in out if lo <= n <= hi)
+
+
+def size_tag(n, what="N"):
+    return f"size-boundary-{what}{int(n)}"
+
+
+def bulk_fracs(rng, N, d, kind):
+    """N fractional coordinates in [0,1)^d from a numpy Generator (bulk numbers of large systems, DESIGN 1.3)."""
+    if kind == "gas":
+        return rng.random((N, d))
+    if kind == "cluster":
+        nc = int(rng.integers(1, 4))
+        centres = rng.random((nc, d))
+        return (centres[rng.integers(0, nc, size=N)] + 0.12 * (rng.random((N, d)) - 0.5)) % 1.0
+    m = int(np.ceil(N ** (1.0 / d) - 1e-9))
+    while m ** d < N:
+        m += 1
+    sites = np.array(list(itertools.product(range(m), repeat=d)), dtype=float)
+    sites = sites[rng.permutation(len(sites))[:N]]
+    return ((sites + 0.5 + 0.3 * (rng.random((N, d)) - 0.5)) / m) % 1.0
+
+
+@st.composite
+def bulk_config_st(draw, d, N, cell, K=1, frames=(1, 1), ppp=None, kinds=("gas", "lattice-jit", "cluster")):
+    """Same layout as config_st for systems too large to draw entry by entry: Hypothesis draws N, the kind, the seed
+    and every parameter; the coordinates come from numpy.random.default_rng(seed)."""
+    seed = draw(st.integers(0, 2 ** 32 - 1))
+    rng = np.random.default_rng(seed)
+    F = draw(st.integers(*frames))
+    kind = draw(pick(kinds))
+    fr = []
+    for _ in range(F):
+        f = bulk_fracs(rng, N, d, kind)
+        if cell["kind"] != "ortho":
+            f = (f + 1e-9 * np.arange(N)[:, None] * (1.0 + _IRR[:d])[None, :]) % 1.0
+        fr.append(f)
+    ppp = np.asarray(ppp, dtype=int)
+    offs, unwrapped = draw(unwrap_st(N, d, ppp, rng=rng))
+    types = np.concatenate([np.arange(1, K + 1), rng.integers(1, K + 1, size=N - K)])[rng.permutation(N)].astype(int)
+    t0 = draw(st.integers(0, 10 ** 6))
+    dt = draw(st.integers(1, 5000))
+    return {"d": d, "cell": cell, "pos": [cell["lo"] + (f + offs) @ cell["H"] for f in fr], "types": types, "ppp": ppp,
+            "K": K, "kind": "bulk-" + kind, "timesteps": [t0 + k * dt for k in range(F)], "outside": bool(np.any(offs)),
+            "unwrapped": unwrapped, "seed": seed}
+
+
+def config_tags(case):
+    """class tags shared by every configuration-based facet"""
+    ppp = np.asarray(case["ppp"])
+    L = np.diag(np.asarray(case["cell"]["H"], dtype=float))
+    out = [f"d{case['d']}", case["cell"]["kind"], f"K{case['K']}", f"frames{len(case['pos'])}",
+           "mask-full" if np.all(ppp) else ("mask-open" if not np.any(ppp) else "mask-partial"),
+           "outside" if case.get("outside") else "inside", "input-" + case.get("unwrapped", "wrapped"),
+           case["kind"].split("+")[0].split(":")[0],
+           "edges-equal" if np.ptp(L) == 0 else "edges-unequal"]
+    if case["cell"]["kind"] != "ortho":
+        Hm = np.asarray(case["cell"]["H"], dtype=float)
+        off = Hm - np.diag(np.diag(Hm))
+        out.append("tilt-negative" if off.min() < 0 else "tilt-positive")
+    N = len(case["types"])
+    if N in _BOUNDARY_SET:
+        out.append(size_tag(N))
+    return out
+
+
+_BOUNDARY_SET = set(boundary_sizes(20, 2100))
+
+# ----------------------------------------------------------------------------- library objects, call protocols
+
+
+def build_snaps(case, intcell=False):
+    """(Snapshots of a case, applied).  intcell: an integer-valued orthogonal cell handed over as int64 arrays (what a
+    hand-built `np.diag([10, 10, 10])` is) - only where every entry is an exact integer, otherwise float arrays."""
+    Hm = np.asarray(case["cell"]["H"], dtype=float)
+    if not (intcell and case["cell"]["kind"] == "ortho" and np.array_equal(Hm, np.rint(Hm))):
+        return gen.snapshots_from(case), False
+    from PyMatterSim.reader.reader_utils import SingleSnapshot, Snapshots
+    snaps = []
+    for s in gen.snapshots_from(case).snapshots:
+        snaps.append(SingleSnapshot(timestep=s.timestep, nparticle=s.nparticle, particle_type=s.particle_type,
+                                    positions=s.positions, boxlength=np.rint(s.boxlength).astype(np.int64),
+                                    boxbounds=s.boxbounds, realbounds=s.realbounds,
+                                    hmatrix=np.rint(s.hmatrix).astype(np.int64)))
+    return Snapshots(nsnapshots=len(snaps), snapshots=snaps), True
+
+
+def mutate_snaps(snaps, case):
+    """Overwrite the arrays of existing snapshot objects IN PLACE with the contents of `case` (same N, d, frames, cell
+    class): a memo keyed on object identity or shape would keep answering for the old contents."""
+    fresh = gen.snapshots_from(case)
+    for s, t in zip(snaps.snapshots, fresh.snapshots):
+        assert s.timestep == t.timestep and (s.realbounds is None) == (t.realbounds is None)
+        s.positions[...] = t.positions
+        s.particle_type[...] = t.particle_type
+        s.hmatrix[...] = t.hmatrix
+        s.boxlength[...] = t.boxlength
+        s.boxbounds[...] = t.boxbounds
+        if s.realbounds is not None:
+            s.realbounds[...] = t.realbounds
+    return snaps
+
+
+PROTOCOLS = ("fresh", "fresh", "fresh", "inplace", "twice", "outfile")
+
+
+class Kept:
+    """Results handed out earlier must stay what they were (EXTENSION_3 class 3): every array / DataFrame a routine
+    returns is kept alive together with a copy taken at return; verify() re-compares all of them bit for bit after the
+    later calls (same parameters, other data) have been made."""
+
+    def __init__(self):
+        self.items = []
+
+    @staticmethod
+    def _snap(raw):
+        if isinstance(raw, pd.DataFrame):
+            return raw.copy(deep=True)
+        if isinstance(raw, (tuple, list)):
+            return [Kept._snap(x) for x in raw]
+        if isinstance(raw, np.ndarray):
+            return raw.copy()
+        return raw
+
+    def add(self, name, raw):
+        self.items.append((name, raw, self._snap(raw)))
+        return raw
+
+    @staticmethod
+    def _same(a, b):
+        if isinstance(b, pd.DataFrame):
+            return isinstance(a, pd.DataFrame) and list(a.columns) == list(b.columns) and a.shape == b.shape and \
+                bool(np.array_equal(a.to_numpy(), b.to_numpy(), equal_nan=True))
+        if isinstance(b, list):
+            return len(a) == len(b) and all(Kept._same(x, y) for x, y in zip(a, b))
+        if isinstance(b, np.ndarray):
+            return isinstance(a, np.ndarray) and a.shape == b.shape and bool(
+                np.array_equal(a, b, equal_nan=np.issubdtype(b.dtype, np.inexact)))
+        return True
+
+    def verify(self):
+        for name, raw, copy in self.items:
+            if not self._same(raw, copy):
+                raise Violation(f"{name}: the result object handed out earlier changed after later calls (it must stay "
+                                f"what it was at return)")
+        return len(self.items)
 
 
 def quat_to_matrix(q):
@@ -184,8 +397,11 @@ def feasible_kinds(allowed, *, N, K, ortho, ppp, d):
 
 
 @st.composite
-def tf_st(draw, allowed, *, N, K, d, F, ortho, ppp, per_frame=True, max_kinds=2, lattice_per_frame=True, first=None):
-    """A symmetry transformation: 1..max_kinds components from `allowed`, each far from the identity by construction.
+def tf_st(draw, allowed, *, N, K, d, F, ortho, ppp, per_frame=True, max_kinds=4, lattice_per_frame=True, first=None,
+          rng=None):
+    """A symmetry transformation: 1..max_kinds components from `allowed` (max_kinds >= 4: occasionally EVERY applicable
+    one, the full chain translation o image shift o relabelling o axis permutation o ...), each far from the identity
+    by construction.  rng: numpy Generator for the bulk numbers (per-particle shifts, permutation) of large systems.
 
     Returned dict (plain, picklable):
       kinds   list of active component names
@@ -197,6 +413,8 @@ def tf_st(draw, allowed, *, N, K, d, F, ortho, ppp, per_frame=True, max_kinds=2,
       perm    perm[i] = new index of old particle i (perm)
       sigma   sigma[a-1] = new label of old label a (swap)
       movebox whether the box origin moves with the translation of frame 0
+      lat     magnitude class of the lattice shifts: near (|n| <= 2) / several (some |n| in 3..8) / far (some |n| in 20..60)
+      far     the translation is by many (5..40) cell vectors
     """
     ppp = np.asarray(ppp, dtype=int)
     feas = feasible_kinds(allowed, N=N, K=K, ortho=ortho, ppp=ppp, d=d)
@@ -204,11 +422,17 @@ def tf_st(draw, allowed, *, N, K, d, F, ortho, ppp, per_frame=True, max_kinds=2,
     if first is None or first not in feas:
         first = draw(pick(feas))
     kinds = [first]
-    if max_kinds > 1 and len(feas) > 1 and draw(st.integers(0, 2)) == 0:
-        second = draw(pick([k for k in feas if k != first]))
-        kinds.append(second)
+    others = [k for k in feas if k != first]
+    r = _scramble(draw(st.integers(0, 2 ** 32 - 1))) % 10
+    extra = 0 if r <= 3 else (1 if r <= 6 else (2 if r <= 8 else len(others)))
+    extra = min(extra, max_kinds - 1, len(others))
+    if extra == len(others):
+        kinds += others
+    elif extra:
+        order = draw(st.permutations(range(len(others))))
+        kinds += [others[i] for i in order[:extra]]
     tf = {"kinds": kinds, "R": None, "axes": None, "s": 1.0, "tfrac": np.zeros((F, d)), "n": np.zeros((F, N, d)),
-          "perm": np.arange(N), "sigma": np.arange(1, K + 1), "movebox": False, "angle": 0.0}
+          "perm": np.arange(N), "sigma": np.arange(1, K + 1), "movebox": False, "angle": 0.0, "lat": None, "far": False}
     if "rotate" in kinds:
         tf["R"], tf["angle"] = draw(rotation_st(d))
     if "axes" in kinds:
@@ -220,25 +444,44 @@ def tf_st(draw, allowed, *, N, K, d, F, ortho, ppp, per_frame=True, max_kinds=2,
             s = s + 0.25
         tf["s"] = float(s)
     if "translate" in kinds:
-        el = st.one_of(st.integers(-48, 48).map(lambda k: k / 16.0), fl(-3.0, 3.0))
+        tf["far"] = chance(draw, 5)
+        if tf["far"]:
+            el = st.one_of(st.integers(-40, 40).map(float), fl(-40.0, 40.0))
+        else:
+            el = st.one_of(st.integers(-48, 48).map(lambda k: k / 16.0), fl(-3.0, 3.0))
         rows = F if (per_frame and draw(st.booleans())) else 1
         t = draw(dense((rows, d), el))
-        for r in range(rows):
+        for r_ in range(rows):
             k = draw(st.integers(0, d - 1))
-            if abs(t[r, k]) < 0.1:
-                t[r, k] += 0.1 if t[r, k] >= 0 else -0.1
+            if tf["far"] and abs(t[r_, k]) < 5.0:
+                t[r_, k] += 7.25 if t[r_, k] >= 0 else -7.25
+            if abs(t[r_, k]) < 0.1:
+                t[r_, k] += 0.1 if t[r_, k] >= 0 else -0.1
         tf["tfrac"] = np.repeat(t, F, axis=0) if rows == 1 else t
         tf["movebox"] = draw(st.booleans())
     if "lattice" in kinds:
+        lat = draw(pick(["near", "near", "several", "several", "far"]))
+        amp = 2 if lat != "several" else 8
         rows = F if lattice_per_frame else 1
-        n = draw(hnp.arrays(np.int64, (rows, N, d), elements=st.integers(-2, 2))).astype(float) * ppp
+        if rng is None:
+            n = draw(hnp.arrays(np.int64, (rows, N, d), elements=st.integers(-amp, amp))).astype(float) * ppp
+        else:
+            n = rng.integers(-amp, amp + 1, size=(rows, N, d)).astype(float) * ppp
         ax = int(np.argmax(ppp))
-        for r in range(rows):
-            if not n[r].any():
-                n[r, draw(st.integers(0, N - 1)), ax] = draw(st.sampled_from([-1.0, 1.0, 2.0]))
+        for r_ in range(rows):
+            if not n[r_].any():
+                n[r_, draw(st.integers(0, N - 1)), ax] = draw(st.sampled_from([-1.0, 1.0, 2.0]))
+            if lat == "several" and np.abs(n[r_]).max() < 3:
+                n[r_, draw(st.integers(0, N - 1)), ax] = draw(st.sampled_from([-8.0, -5.0, -3.0, 3.0, 4.0, 7.0]))
+            if lat == "far":
+                n[r_, draw(st.integers(0, N - 1)), ax] = draw(st.integers(20, 60)) * draw(st.sampled_from([-1.0, 1.0]))
         tf["n"] = np.repeat(n, F, axis=0) if rows == 1 else n
+        tf["lat"] = lat
     if "perm" in kinds:
-        p = np.array(draw(st.permutations(range(N))), dtype=int)
+        if rng is None:
+            p = np.array(draw(st.permutations(range(N))), dtype=int)
+        else:
+            p = rng.permutation(N)
         if np.array_equal(p, np.arange(N)):
             p = np.roll(p, 1)
         tf["perm"] = p
@@ -314,8 +557,33 @@ def apply_tf(case, tf):
     return new
 
 
-def tf_tags(tf):
-    return ["tf-" + k for k in tf["kinds"]] + (["tf-pair"] if len(tf["kinds"]) > 1 else ["tf-single"])
+def tf_tags(tf, obs=None):
+    """tf-<kind> per active component, the size of the composition, the magnitude classes, and (obs given) the
+    populated cells of the observable x transformation matrix as cell:<observable>:<kind>."""
+    nk = len(tf["kinds"])
+    out = ["tf-" + k for k in tf["kinds"]] + ["tf-single" if nk == 1 else "tf-pair" if nk == 2 else "tf-triple" if nk == 3
+                                              else "tf-chain4+"]
+    if tf.get("lat"):
+        out.append("lat-" + tf["lat"])
+    if tf.get("far"):
+        out.append("translate-far")
+    if {"translate", "lattice", "perm", "axes"} <= set(tf["kinds"]):
+        out.append("tf-translate.lattice.perm.axes")
+    for o in ([obs] if isinstance(obs, str) else (obs or [])):
+        out += [f"cell:{o}:{k}" for k in tf["kinds"]]
+    return out
+
+
+def coord_noise(*cases):
+    """Absolute rounding noise of a coordinate difference: 4 ulp of the largest coordinate / cell entry that occurs in
+    any of the configurations (a pair vector is a difference of two coordinates that were each rounded once when the
+    transformation was applied, and goes through one fractional-coordinate round trip)."""
+    m = 0.0
+    for c in cases:
+        m = max(m, float(np.abs(np.asarray(c["cell"]["H"])).max()), float(np.abs(np.asarray(c["cell"]["lo"])).max(initial=0.0)))
+        for p in c["pos"]:
+            m = max(m, float(np.abs(p).max(initial=0.0)))
+    return 4.0 * 2.220446049250313e-16 * m
 
 
 def describe_tf(tf):
@@ -324,6 +592,7 @@ def describe_tf(tf):
         out["tfrac"] = np.round(tf["tfrac"], 4).tolist()
     if "lattice" in tf["kinds"]:
         out["n_nonzero"] = int(np.count_nonzero(tf["n"]))
+        out["n_max"] = float(np.abs(tf["n"]).max())
     if "perm" in tf["kinds"]:
         out["perm"] = np.asarray(tf["perm"]).tolist()[:12]
     if "swap" in tf["kinds"]:
@@ -340,7 +609,8 @@ def describe_tf(tf):
 def describe(case):
     dsc = gen.describe_config(case)
     dsc["tf"] = describe_tf(case["tf"])
-    for k in ("rdelta", "l", "mode", "k", "rcut", "model", "obs", "file"):
+    for k in ("rdelta", "l", "mode", "k", "rcut", "model", "obs", "file", "proto", "qrep", "Nmax", "mass_rep", "diam_rep",
+              "unwrapped", "nb", "seed"):
         if k in case:
             v = case[k]
             dsc[k] = v.tolist() if isinstance(v, np.ndarray) else v
@@ -481,3 +751,76 @@ def nondegenerate(x):
     x = np.asarray(x, dtype=float)
     x = x[np.isfinite(x)]
     return bool(x.size and np.any(np.abs(x) > 1e-12) and (x.size == 1 or np.ptp(x) > 1e-9 * (1 + np.abs(x).max())))
+
+
+# ----------------------------------------------------------------------------- shared case ingredients
+
+
+def integerise(cell):
+    """the same kind of cell with integer-valued edges and origin (so that it can be handed over as int64 arrays)"""
+    H = np.asarray(cell["H"], dtype=float)
+    L = np.maximum(2.0, np.rint(np.diag(H)))
+    out = dict(cell)
+    out["H"] = H - np.diag(np.diag(H)) + np.diag(L)
+    out["lo"] = np.rint(np.asarray(cell["lo"], dtype=float))
+    return out
+
+
+@st.composite
+def size_st(draw, small, size, boundary_hi=260, large=(480, 1030)):
+    """(N, is_bulk): `small` = (lo, hi) drawn entry by entry; size 'mixed' = small with a boundary size in one case of
+    eight; 'boundary' / 'large' = always a block-boundary size (EXTENSION_3 class 1)."""
+    if size == "large":
+        return draw(st.sampled_from(boundary_sizes(*large))), True
+    if size == "boundary" or (size == "mixed" and chance(draw, 8)):
+        return draw(pick(boundary_sizes(31, boundary_hi))), True
+    return draw(st.integers(*small)), False
+
+
+@st.composite
+def any_config_st(draw, d, N, bulk, cell, K, frames, ppp, **kw):
+    if bulk:
+        return draw(bulk_config_st(d, N, cell, K=K, frames=frames, ppp=ppp))
+    return draw(config_st(d, N, cell, K=K, frames=frames, ppp=ppp, **kw))
+
+
+def new_kept():
+    global KEPT
+    KEPT = Kept()
+    return KEPT
+
+
+KEPT = Kept()
+
+
+def two_runs(case, new, run):
+    """Original and transformed evaluation under the case's call protocol.  run(c, snaps, side) -> parsed output.
+      fresh    two independent Snapshots objects
+      inplace  ONE Snapshots object whose arrays are overwritten in place with the transformed contents
+      twice / outfile  handled by `run` (second evaluation on the same analysis object / results also written to a file)
+    The transformed side optionally receives an integer-valued cell as int64 arrays (case['intcell'])."""
+    proto = case.get("proto", "fresh")
+    tags = ["proto-" + proto]
+    s0 = gen.snapshots_from(case)
+    o0 = run(case, s0, 0)
+    if proto == "inplace":
+        s1 = mutate_snaps(s0, new)
+    else:
+        s1, applied = build_snaps(new, case.get("intcell", False))
+        if applied:
+            tags.append("rep-intcell")
+    o1 = run(new, s1, 1)
+    return o0, o1, tags
+
+
+def same_again(name, first, second, rtol=1e-12):
+    """second evaluation on the same object: must reproduce the first (to rounding)"""
+    a, b = np.asarray(first, dtype=float), np.asarray(second, dtype=float)
+    require(a.shape == b.shape, lambda: f"{name}: second evaluation on the same object has shape {b.shape}, first {a.shape}")
+    fin = np.isfinite(a)
+    require(np.array_equal(fin, np.isfinite(b)), f"{name}: second evaluation on the same object differs in nan/inf pattern")
+    if fin.any():
+        scale = float(np.abs(a[fin]).max())
+        require(bool(np.all(np.abs(a[fin] - b[fin]) <= rtol * max(scale, 1e-300) + 1e-300)),
+                lambda: f"{name}: second evaluation on the same object differs from the first by "
+                f"{float(np.abs(a[fin] - b[fin]).max()):.3e} (scale {scale:.3e})")
